@@ -57,7 +57,7 @@ def late_probe(ex, w, sa, sb, dll, kind, npk, info, tag):
     del sa.rx[:]
 
 
-def h_fault(ex, dll, L, kind, fault, windows=(1, 1), nmax=None):
+def h_fault(ex, dll, L, kind, fault, windows=(1, 1), nmax=None, timer=None):
     """kind: 'p2p' | 'bam';  fault: 'drop' (k-th bus frame lost) | 'silentA' | 'silentB' (node silent from its k-th frame on)"""
     w = W.World(ex, mode='interleave')
     wa, wb = windows
@@ -80,6 +80,11 @@ def h_fault(ex, dll, L, kind, fault, windows=(1, 1), nmax=None):
         sb.node.silent_from = k
     payload = sym_payload(ex, 'b', L)
     pf, ps = (0xD0, B) if kind == 'p2p' else (0xFE, 0x10)
+    if timer is not None:
+        # an unrelated periodic application timer runs on both ECUs (the job thread also serves timers): the session
+        # timeouts must not depend on it
+        for s_ in (sa, sb):
+            s_.node.ecu.add_timer(Fraction(timer), lambda cookie: (w.callback_fired(), True)[1])
     w.run(until=T('1/100'))
     t0 = w.now
     r = sa.ca.send_pgn(0, pf, ps, 6, list(payload))
@@ -220,6 +225,9 @@ def jobs(tier):
                         J(dll=dll, L=L, kind=kind, fault=fault, windows=list(win))
             J('h_giveup_time', dll=dll, L=L, kind='p2p', fault='drop', windows=[1, 1])
             J('h_giveup_time', dll=dll, L=L, kind='p2p', fault='drop', windows=[255, 255])
+        for fault in ('drop', 'silentA', 'silentB'):
+            J(dll=dll, L=seg * 3 - 1, kind='p2p', fault=fault, windows=[2, 2], timer='2')
+        J(dll=dll, L=seg * 3 - 1, kind='bam', fault='drop', windows=[1, 1], timer='9/10')
         J(dll=dll, L=seg * 3 + 1, kind='p2p', fault='drop', windows=['sym', 'sym'])
         if not q:
             # both windows symbolic (1..255) for every fault kind and more sizes; mixed concrete windows; BAM give-up time
@@ -244,7 +252,7 @@ def meta(tier):
     return {
         'bounds': ['transfer shapes: BAM and RTS/CTS on both data link layers, sizes giving ' + ('{2,3,5}' if tier == 'quick' else '2..12') + ' packets / segments, windows 1, 2, 3, all (and both windows symbolic for ' + ('one size' if tier == 'quick' else '2, 3, 4, 5, 7 packets, all fault kinds; mixed windows; 20 and 40 packets') + ')',
                    'fault: index k of the lost bus frame, or index k from which originator / responder is silent: symbolic over all frames of the exchange (k beyond the last frame = fault-free run)',
-                   'payload bytes symbolic; interleavings of deliveries and job passes per DESIGN 3',
+                   'payload bytes symbolic; interleavings of deliveries and job passes per DESIGN 3', 'with and without an unrelated periodic application timer (0.9 s / 2 s) on both ECUs',
                    'follow-up transfer on the same pair after 8 s, and (h_giveup_time) immediately after the bus has been silent for the timeout (1.25 s; 3 s on J1939-22) + 8 ms slack'],
         'outside': ['more than one lost frame', 'sizes beyond ' + ('5' if tier == 'quick' else '12 packets (20 and 40 packets with windows 8 / 16 only)') + ' packets'],
         'assumptions': ['timestamps are macro times of the interleaving model (slack 5 ms + 2 ms)'],
